@@ -927,6 +927,7 @@ mkincdecexpr(enum tokenkind op, struct expr *base, bool post)
 	if (base->qual & QUALCONST)
 		error(&tok.loc, "operand of '%s' operator is const qualified", tokstr[op]);
 	e = mkexpr(EXPRINCDEC, base->type, base);
+	e->qual = base->qual;
 	e->op = op;
 	e->u.incdec.post = post;
 	return e;
